@@ -261,6 +261,27 @@ impl Canon for Z32 {
     }
 }
 
+/// Zero-copy with the largest alignment unit the heap loader supports (64 = MemoryAlignment).
+#[derive(Epserde, Copy, Clone, Debug)]
+#[repr(C)]
+#[repr(align(64))]
+#[zero_copy]
+pub struct Z64 {
+    pub a: u16,
+    pub b: u64,
+}
+impl Gen for Z64 {
+    fn gen(r: &mut Rng, s: usize) -> Self {
+        Z64 { a: u16::gen(r, s), b: u64::gen(r, s) }
+    }
+}
+impl Canon for Z64 {
+    fn canon(&self, out: &mut Vec<u8>) {
+        self.a.canon(out);
+        self.b.canon(out);
+    }
+}
+
 /// Zero-copy enum.
 #[derive(Epserde, Copy, Clone, Debug)]
 #[repr(C)]
@@ -926,6 +947,7 @@ registry! {
     VecZeroS: Vec<ZeroS>;
     VecZeroP: Vec<ZeroP>;
     VecZ32: Vec<Z32>;
+    VecZ64: Vec<Z64>;
     VecRangeTo: Vec<RangeTo<u32>>;
     VecString: Vec<String>;
     VecVecU32: Vec<Vec<u32>>;
@@ -964,6 +986,7 @@ registry! {
     IncrA: Incr<Vec<u16>, Vec<u32>, Vec<u64>, Vec<Z32>>;
     IncrB: Incr<Vec<u8>, Vec<u16>, Option<Vec<u128>>, Vec<u64>>;
     IncrC: Incr<String, Vec<(u16, u16)>, Vec<ZeroP>, Vec<u128>>;
+    IncrD: Incr<Vec<u8>, Vec<Z32>, Vec<Z64>, Vec<u16>>;
     TupleSD: TupleS<Vec<u64>>;
     EnumDVec: EnumD<Vec<u32>> { variants = |r, s| (0..3).map(|v| EnumD::variant(v, r, s)).collect() };
     EnumDStr: EnumD<String> { variants = |r, s| (0..3).map(|v| EnumD::variant(v, r, s)).collect() };
